@@ -231,6 +231,7 @@ def wrap_source(val, kind):
 SEQ = '''
 class Seq:
     def __init__(s, items): s.items = items
+    def __repr__(s): return 'Seq(%r)' % (s.items,)
     def __iter__(s):
         print('iter-called')
         return iter(s.items)
@@ -293,7 +294,34 @@ def slice_cells():
         yield ("slice-store-captured-index", sl), body
 
 
+def chained_cells():
+    """Chained assignment mixing destructuring patterns and plain targets in every order: each target gets what Python
+    gives it - the plain targets the assigned *object itself* (identity), the patterns its elements."""
+    pats = ["a, b", "[a, b]", "a, *b", "*a, b", "(a, b), c", "a, (b, *c)", "lg.p, lg[0]", "a, lg[1:2]"]
+    srcs = {"list": "[1, 2]", "tuple": "(1, 2)", "str": "'xy'", "iterator": "iter([1, 2])", "generator": "(q for q in (1, 2))",
+            "dictview": "{1: 0, 2: 0}.keys()", "custom-iterable": "Seq([1, 2])", "nested-list": "[[1, 2], [3, 4]]", "nested-tuple": "((1, 2), (3, 4))"}
+    forms = {"pattern-first": "{P} = z = {S}", "pattern-middle": "z = {P} = y = {S}", "pattern-last": "z = y = {P} = {S}",
+             "two-patterns": "{P} = z = [c0, *c1] = {S}", "pattern-attr-pattern": "{P} = lg.whole = {P} = {S}"}
+    for (pi, pat), (sk, src), (fk, form) in itertools.product(enumerate(pats), srcs.items(), forms.items()):
+        nested = "(" in pat
+        if nested != sk.startswith("nested"):
+            continue
+        stmt = form.replace("{P}", pat).replace("{S}", src)
+        names = sorted(set(n for n in ("a", "b", "c") if n in pat.replace("lg", "")))
+        show = ["repr(%s)" % n for n in names]
+        if " z " in " " + stmt:
+            show += ["type(z).__name__", "repr(list(z)) if type(z).__name__ in ('list_iterator', 'generator') else repr(z)"]
+        if " y " in " " + stmt:
+            show += ["y is z"]
+        if "c0" in stmt:
+            show += ["repr(c0)", "repr(c1)"]
+        body = "lg = Log('lg')\n%s\nprint(%s)\n" % (stmt, ", ".join(show))
+        yield ("chained", pat, sk, fk), body
+        yield ("chained-in-function", pat, sk, fk), "def f():\n" + "".join("    " + l + "\n" for l in body.splitlines()) + "f()\n"
+
+
 def all_cells():
+    yield from chained_cells()
     yield from aug_cells()
     yield from destructuring_cells()
     yield from slice_cells()
